@@ -14,8 +14,9 @@
      linearizable s cs      some permutation of cs is a legal sequential execution from s and never puts a call
                             before one that had responded before it was invoked
      linb                   the executable checker the recorded histories of the real runs are judged by *)
-From Coq Require Import List NArith ZArith Arith Bool String Sorting.Permutation.
-From PF Require Import Graph.Lock Graph.LockProofs Graph.LockSemProofs Graph.LockNodes Graph.LockAlias.
+From Coq Require Import List NArith ZArith Arith Bool String Lia Sorting.Permutation.
+From PF Require Import Graph.Lock Graph.LockProofs Graph.LockSemProofs Graph.LockNodes Graph.LockAlias
+  Graph.LockExt Graph.LockExtProofs.
 From PFGen Require LockFacts.
 Import ListNotations.
 
@@ -329,6 +330,106 @@ Print Assumptions unlocked_update_refuted.
 Theorem lin_checker_sound_complete : forall s cs, linb s cs = true <-> linearizable s cs.
 Proof. exact linb_iff. Qed.
 Print Assumptions lin_checker_sound_complete.
+
+(* ==================================================================================================== *)
+(* Round 4: THE HTTP LAYER (generator/app_server.go, generator/app_server_parameter.go).  The edit server's clients do
+   not call graph.Instance: they send requests that handlers turn into calls.  Definitions in Graph/LockExt.v:
+     hfacts / LockFacts.handlers   handler facts extracted by tools/lockfacts from the tree under check: every function
+                                   (and function literal) of the two files, and of the package functions they call,
+                                   that reaches UpdateParameter / ParameterData / Artifact
+     http_facts_ok                 each entry point is served, and every such function reaches ONE call site of ONE
+                                   entry point, reaches parameter state in no other way (ApplyMessage / ToMessage),
+                                   starts no goroutine, uses no channel / sync primitive, and changes no state that
+                                   outlives the request (receiver fields, package variables, captured locals)
+     http_obs H all x y            y is what the client of the request that performed Instance call x observes: the
+                                   same operation, an interval that CONTAINS x's, and -- when the handler is plain
+                                   (H) -- the response of its OWN call; otherwise possibly the response of another
+                                   request's call of the same operation (response cache, request coalescing). *)
+
+(* (T) the handler facts of the tree under check; re-established by computation on every run *)
+Theorem handler_facts_hold : http_facts_ok LockFacts.handlers = true.
+Proof. vm_compute. reflexivity. Qed.
+Print Assumptions handler_facts_hold.
+
+(* For the lock facts AND handler facts of the checked tree, every number of clients, all programs, every
+   interleaving: what the HTTP clients observe (request sent ... response fully received, any delay before and after
+   the Instance call, e.g. a slow download) is linearizable w.r.t. the same sequential specification. *)
+Theorem http_clients_linearizable : forall s programs c tr obs,
+  reach (guard_of LockFacts.facts) (init_config s programs) c tr -> quiescent c ->
+  Forall2 (http_obs (plain_of LockFacts.handlers) (calls_of tr)) (calls_of tr) obs ->
+  linearizable s obs.
+Proof.
+  intros s programs c tr obs HR HQ HF.
+  eapply http_plain_linearizable; [|exact HF|].
+  - apply http_facts_plain. exact handler_facts_hold.
+  - exact (guarded_linearizable_quiescent (guard_of LockFacts.facts) s programs c tr
+             (lock_facts_guard _ lock_facts_hold) HR HQ).
+Qed.
+Print Assumptions http_clients_linearizable.
+
+(* ... for any facts: *)
+Theorem http_plain_handlers_linearizable : forall fs hs s programs c tr obs,
+  lock_facts_ok fs = true -> http_facts_ok hs = true ->
+  reach (guard_of fs) (init_config s programs) c tr -> quiescent c ->
+  Forall2 (http_obs (plain_of hs) (calls_of tr)) (calls_of tr) obs ->
+  linearizable s obs.
+Proof.
+  intros fs hs s programs c tr obs HL HH HR HQ HF.
+  eapply http_plain_linearizable; [|exact HF|].
+  - apply http_facts_plain. exact HH.
+  - eapply guarded_linearizable_quiescent; eauto. apply lock_facts_guard. exact HL.
+Qed.
+Print Assumptions http_plain_handlers_linearizable.
+
+(* What the handler facts buy: a handler that may answer a request with the response of ANOTHER request's call
+   (seeded change C13-J: in-flight artifact requests are coalesced until the serialisation has finished) -- a slow
+   artifact request evaluated in the initial state, an update acknowledged while it is still being downloaded, a
+   NEW artifact request served the old bytes: the Instance-level history is linearizable, every observation is
+   the response of some Instance call of the same operation, and the observed history is NOT linearizable. *)
+Theorem http_shared_response_refuted :
+  linearizable coal_init coal_calls /\
+  Forall2 (http_obs (fun o => negb (readonly o)) coal_calls) coal_calls coal_obs /\
+  ~ linearizable coal_init coal_obs.
+Proof. exact LockExtProofs.http_shared_response_refuted. Qed.
+Print Assumptions http_shared_response_refuted.
+
+(* Sequential scripts (one client; the harness's sweep scripts, Check/C13.v CSweep): on a history whose calls follow
+   each other the linear replay in program order decides linearizability -- the oracle neither accepts a
+   non-linearizable script nor rejects a linearizable one. *)
+Theorem sequential_script_oracle : forall s i l,
+  legalb s (number i l) = true <-> linearizable s (number i l).
+Proof. exact sweep_oracle_iff. Qed.
+Print Assumptions sequential_script_oracle.
+
+(* Dependency-version bookkeeping of nodes.Struct (struct_node.go Outdated / updateUsedDependencyVersions): comparing
+   the recorded versions element by element notices EVERY change; folding them into one stamp `s<<sh ^ v` (seeded
+   change C13-I) does not: one dependency re-evaluated once (from an even version) and another 2^sh times leaves the
+   stamp unchanged -- for sh = 5: [0;0] and [1;32]. *)
+Theorem dependency_versions_exact : forall recorded current,
+  stale_by_list recorded current = false <-> recorded = current.
+Proof. exact stale_by_list_exact. Qed.
+Print Assumptions dependency_versions_exact.
+
+Theorem folded_dependency_stamp_refuted :
+  (forall sh a b, N.testbit b sh = false ->
+     fold_stamp sh [N.succ (2 * a); (b + 2 ^ sh)%N] = fold_stamp sh [(2 * a)%N; b]) /\
+  stale_by_list [0; 0]%N [1; 32]%N = true /\ stale_by_stamp 5 [0; 0]%N [1; 32]%N = false.
+Proof. split; [exact fold_stamp_collides | exact folded_stamp_refuted]. Qed.
+Print Assumptions folded_dependency_stamp_refuted.
+
+(* non-vacuity of [http_clients_linearizable]: the run of [guarded_run_example] observed through HTTP with every
+   request taking two ticks longer on each side *)
+Example http_observation_example :
+  let sched := [0; 0; 0; 1; 0; 0; 0] ++ repeat 1 6 ++ repeat 1 7 in
+  exists c tr obs,
+    run (guard_of LockFacts.facts) mix_init mix_programs sched = Some (c, tr) /\
+    Forall2 (http_obs (plain_of LockFacts.handlers) (calls_of tr)) (calls_of tr) obs /\
+    obs = map (fun x => mkcall (c_tid x) (c_op x) (c_resp x) (c_inv x - 2) (c_res x + 2)) (calls_of tr) /\
+    linb mix_init obs = true.
+Proof.
+  eexists. eexists. eexists. split; [vm_compute; reflexivity|]. split; [|split; [reflexivity|vm_compute; reflexivity]].
+  cbv [map]. repeat constructor; cbn; try lia; rewrite (http_facts_plain _ handler_facts_hold); reflexivity.
+Qed.
 
 (* Non-vacuity: under the extracted facts of the checked tree a reader (one artifact listing p0, p1) and a
    writer (two updates) interleave -- the writer's invocation falls inside the reader's critical section -- the
